@@ -33,6 +33,10 @@ def check_file(txt, fmt, aln, protein):
         if not txt.endswith("\n"):
             return "FASTA: no final newline"
         return None
+    # the block formats carry names in a column of MSA_NAME_LEN (256) bytes: longer names appear cut to 256 bytes, consistently in the MSF
+    # Name: lines and in every block
+    names = [n[:256] for n in names]
+    aln = [(n[:256], r) for n, r in aln]
     if fmt == "clu":
         try:
             rows, shape, hdr = gen.parse_clustal(txt)
@@ -103,6 +107,10 @@ def run(ctx):
     for k, (kind, aln) in enumerate(alns):
         for f in ("fasta", "msf", "clu"):
             path = os.path.join(sc, "c15_%d.%s" % (k, f))
+            if k % 7 == 3 and f == "fasta":
+                # names longer than the 256-byte name column of the block formats (FASTA headers are kept whole); unique within their first 256 bytes
+                aln = [("%03d_" % j + "n" * (rng.choice([252, 253, 256, 260, 300, 330])) , r) for j, (n_, r) in enumerate(aln)]
+                alns[k] = (kind, aln)
             if k % 5 == 2:
                 # long output file names (the MSF header line carries the basename): up to the 255-byte limit of a file name
                 stem = "c15_%d_" % k
